@@ -26,26 +26,28 @@ CONSTANTS Scenarios, FixF1, FixF2, FixF3
 H == 1        \* the holder
 NIL == 0      \* a nil *Meta in Property.Injects
 
+\* (kind = what Kind() string returns, "" if the type has no such method: types 4 7 -> "A", 5 14 -> "B"; func points may
+\*  carry returns=...: the method is called and its result compared; "*" accepts any result)
 \* (hasT = has Tick() without results: a second method name for func points: types 4 8 12 13 16)
 \* pool types: i1 = implements RI, hasQ = has Qualifier(), prim = has Primary(), hasM = has Mark() without
 \* results, outM = has Mark() WITH a result (must not match func:"Mark"), pb = is the pointer type *PB
-T(i1, hasQ, prim, hasM, outM, pb, hasT) == [i1 |-> i1, hasQ |-> hasQ, prim |-> prim, hasM |-> hasM, outM |-> outM, pb |-> pb, hasT |-> hasT]
-TA == <<T(FALSE, FALSE, FALSE, FALSE, FALSE, FALSE, FALSE),   \* 1  PA   plain
-        T(TRUE,  FALSE, FALSE, FALSE, FALSE, TRUE, FALSE),    \* 2  PB   RI        (the pointer-typed points are *PB)
-        T(TRUE,  TRUE,  FALSE, FALSE, FALSE, FALSE, FALSE),   \* 3  PC   RI Q
-        T(TRUE,  FALSE, TRUE,  FALSE, FALSE, FALSE, TRUE),   \* 4  PD   RI Primary
-        T(TRUE,  TRUE,  TRUE,  FALSE, FALSE, FALSE, FALSE),   \* 5  PE   RI Q Primary
-        T(FALSE, TRUE,  FALSE, FALSE, FALSE, FALSE, FALSE),   \* 6  PF   Q
-        T(TRUE,  FALSE, FALSE, TRUE,  FALSE, FALSE, FALSE),   \* 7  PM   RI Mark()
-        T(TRUE,  TRUE,  FALSE, TRUE,  FALSE, FALSE, TRUE),   \* 8  PQM  RI Q Mark()
-        T(FALSE, FALSE, FALSE, FALSE, FALSE, FALSE, FALSE),   \* 9  HN   holder, plain
-        T(TRUE,  FALSE, FALSE, FALSE, FALSE, FALSE, FALSE),   \* 10 HI   holder, RI
-        T(TRUE,  TRUE,  FALSE, TRUE,  FALSE, FALSE, FALSE),   \* 11 HQM  holder, RI Q Mark()
-        T(FALSE, FALSE, FALSE, TRUE,  FALSE, FALSE, TRUE),   \* 12 PG   Mark() only
-        T(TRUE,  FALSE, FALSE, FALSE, TRUE,  FALSE, TRUE),   \* 13 PO   RI, Mark() int
-        T(TRUE,  FALSE, TRUE,  TRUE,  FALSE, FALSE, FALSE),   \* 14 PDM  RI Primary Mark()
-        T(TRUE,  FALSE, FALSE, FALSE, FALSE, FALSE, FALSE),   \* 15 PZ1  RI, a field-less (zero-size) struct: cannot carry a custom name
-        T(TRUE,  FALSE, FALSE, TRUE,  FALSE, FALSE, TRUE)>>  \* 16 PZ2  RI Mark(), field-less too (Go gives all zero-size objects one address)
+T(i1, hasQ, prim, hasM, outM, pb, hasT, kind) == [i1 |-> i1, hasQ |-> hasQ, prim |-> prim, hasM |-> hasM, outM |-> outM, pb |-> pb, hasT |-> hasT, kind |-> kind]
+TA == <<T(FALSE, FALSE, FALSE, FALSE, FALSE, FALSE, FALSE, ""),   \* 1  PA   plain
+        T(TRUE,  FALSE, FALSE, FALSE, FALSE, TRUE, FALSE, ""),    \* 2  PB   RI        (the pointer-typed points are *PB)
+        T(TRUE,  TRUE,  FALSE, FALSE, FALSE, FALSE, FALSE, ""),   \* 3  PC   RI Q
+        T(TRUE,  FALSE, TRUE,  FALSE, FALSE, FALSE, TRUE, "A"),   \* 4  PD   RI Primary
+        T(TRUE,  TRUE,  TRUE,  FALSE, FALSE, FALSE, FALSE, "B"),   \* 5  PE   RI Q Primary
+        T(FALSE, TRUE,  FALSE, FALSE, FALSE, FALSE, FALSE, ""),   \* 6  PF   Q
+        T(TRUE,  FALSE, FALSE, TRUE,  FALSE, FALSE, FALSE, "A"),   \* 7  PM   RI Mark()
+        T(TRUE,  TRUE,  FALSE, TRUE,  FALSE, FALSE, TRUE, ""),   \* 8  PQM  RI Q Mark()
+        T(FALSE, FALSE, FALSE, FALSE, FALSE, FALSE, FALSE, ""),   \* 9  HN   holder, plain
+        T(TRUE,  FALSE, FALSE, FALSE, FALSE, FALSE, FALSE, ""),   \* 10 HI   holder, RI
+        T(TRUE,  TRUE,  FALSE, TRUE,  FALSE, FALSE, FALSE, ""),   \* 11 HQM  holder, RI Q Mark()
+        T(FALSE, FALSE, FALSE, TRUE,  FALSE, FALSE, TRUE, ""),   \* 12 PG   Mark() only
+        T(TRUE,  FALSE, FALSE, FALSE, TRUE,  FALSE, TRUE, ""),   \* 13 PO   RI, Mark() int
+        T(TRUE,  FALSE, TRUE,  TRUE,  FALSE, FALSE, FALSE, "B"),   \* 14 PDM  RI Primary Mark()
+        T(TRUE,  FALSE, FALSE, FALSE, FALSE, FALSE, FALSE, ""),   \* 15 PZ1  RI, a field-less (zero-size) struct: cannot carry a custom name
+        T(TRUE,  FALSE, FALSE, TRUE,  FALSE, FALSE, TRUE, "")>>  \* 16 PZ2  RI Mark(), field-less too (Go gives all zero-size objects one address)
 
 VARIABLES sc, inj, phase, status, res
 vars == <<sc, inj, phase, status, res>>
@@ -62,7 +64,11 @@ Compat(pt, a) ==
       byKind == CASE pt.kind \in {"ptr", "sptr"} -> t.pb
                   [] pt.kind \in {"iface", "siface"} -> t.i1
                   [] pt.kind = "any" -> TRUE
-  IN IF pt.tag = "func" THEN byKind /\ (IF pt.fn = "Tick" THEN t.hasT ELSE t.hasM) ELSE byKind
+      byFunc == CASE pt.fn = "Tick" -> t.hasT
+                  [] pt.fn = "Kind" -> \* without returns the method must have no result, so Kind() never matches; with returns it is called
+                                       pt.ret # {} /\ t.kind # "" /\ ("*" \in pt.ret \/ t.kind \in pt.ret)
+                  [] OTHER -> t.hasM
+  IN IF pt.tag = "func" THEN byKind /\ byFunc ELSE byKind
 CompatSet(pt) == {p \in Prov : Compat(pt, pop[p])}
 Perms(S) == {s \in [1..Cardinality(S) -> S] : \A i, j \in 1..Cardinality(S) : i # j => s[i] # s[j]}
 \* the members of S in the order given by the permutation o of Prov
